@@ -2,6 +2,7 @@ use crate::rng::Rng;
 
 pub mod alloc;
 pub mod fmt;
+pub mod reg;
 pub mod sort;
 pub mod tsc;
 
@@ -11,6 +12,7 @@ pub fn gen(lab: &str, rng: &mut Rng, n: usize) -> Vec<String> {
         "tsc" => tsc::gen(rng, n),
         "alloc" => alloc::gen(rng, n),
         "fmt" => fmt::gen(rng, n),
+        "reg" => reg::gen(rng, n),
         "sort" => sort::gen(rng, n),
         _ => panic!("unknown lab {lab}"),
     }
@@ -24,6 +26,7 @@ pub fn exec(verb: &str, req: &str) -> String {
         "prof" | "tally" | "tallymt" => alloc::exec(verb, &toks),
         "fd" | "f64" | "bytes" | "thr" => fmt::exec(verb, &toks),
         "natcmp" | "natcmp3" | "argcmp" | "argsort" => sort::exec(verb, &toks),
+        "reg" => reg::exec(verb, &toks),
         _ => format!("bad-verb"),
     }
 }
